@@ -344,7 +344,7 @@ Definition mk_setversion (gen ts blob tract nv : Z) : rpc :=
      k_ver := nv; k_off := 0; k_len := 0; k_wid := 0; k_aux := [ts; 0] |}.
 Definition mk_pull (gen ts blob tract nv : Z) (from : list Z) : rpc :=
   {| k_kind := K_PullTract; k_cli := -1; k_gen := gen; k_ts := ts; k_blob := blob; k_tract := tract;
-     k_ver := nv; k_off := 0; k_len := 0; k_wid := 0; k_aux := ts :: from |}.
+     k_ver := nv; k_off := 0; k_len := 0; k_wid := 0; k_aux := ts :: fold_right insert_sorted [] from |}.
 
 (* a task holds the tract lock of its incarnation while its phase is 1 or 2 *)
 Definition lock_held (ts : list task) (gen blob tract : Z) : bool :=
